@@ -913,3 +913,6 @@ m('C18', 'parser: unknown sections accepted (defect F20)', PARSER,
 m('C08', 'jvec: source field with the absolute frequency (defect F21)', SIMS,
   "                frequency=efield._frequency", "                frequency=efield.frequency",
   'C08.V3.source')
+m('C17', 'from_dict: gridding_opts handed over as stored (defect F22)', SIMS,
+  "        gopts = {'gridding_opts': inp.pop('gridding_opts', {})}\n        io._dict_deserialize(gopts)\n        cls_inp['gridding_opts'] = gopts['gridding_opts']\n",
+  "        cls_inp['gridding_opts'] = inp.pop('gridding_opts', {})\n", 'C17.K2.accepted')
